@@ -38,6 +38,7 @@ class Taps:
     def __init__(self) -> None:
         self.calls: list[dict] = []
         self.answer: Answer = Answer()
+        self.fail_first: t.Optional[str] = None        # "nxdomain" | "noanswer": what the resolver reports for the FIRST query
 
     def _record(self, flavour: str, args: tuple, kwargs: dict) -> Answer:
         import dns.name
@@ -60,6 +61,10 @@ class Taps:
             "search": "absent" if s == "absent" or s is None else ("true" if s is True else "false"),
             "kwargs": sorted(k for k in d if k not in ("qname", "rdtype")),
         })
+        if self.fail_first and len(self.calls) == 1:
+            import dns.resolver
+
+            raise dns.resolver.NXDOMAIN() if self.fail_first == "nxdomain" else dns.resolver.NoAnswer()
         return self.answer
 
     @contextlib.contextmanager
@@ -128,14 +133,15 @@ _EMPTY_RES = {"prio": 0, "weight": 0, "port": 0, "target": []}
 
 
 def replay_one(taps: Taps, loop: asyncio.AbstractEventLoop, dnsmod: t.Any, rid: t.Any, recs: list[tuple[int, int, int, str]],
-               domain: t.Optional[str]) -> dict:
+               domain: t.Optional[str], fail: str = "none") -> dict:
     rdatas = [make_rdata(*r) for r in recs]
     # what is handed to the code is read back from the rdata objects themselves
     answers = [{"prio": rd.priority, "weight": rd.weight, "port": rd.port, "target": _cp(str(rd.target))} for rd in rdatas]
-    row: dict = {"id": rid, "domain": _cp(domain) if domain else [], "answers": answers}
+    row: dict = {"id": rid, "domain": _cp(domain) if domain else [], "answers": answers, "fail": fail}
     for key, flavour in (("s", "sync"), ("a", "async")):
         taps.calls = []
         taps.answer = Answer(rdatas)
+        taps.fail_first = None if fail == "none" else fail
         args = (domain,) if domain is not None else ()
         try:
             if flavour == "sync":
@@ -151,7 +157,8 @@ def replay_one(taps: Taps, loop: asyncio.AbstractEventLoop, dnsmod: t.Any, rid: 
             first = dict(first, qname=first["qname"][:-1])
             row.setdefault("drift", []).append("query name given as absolute name (trailing dot)")
         row[key] = {"n": len(calls), "qname": _cp(first["qname"]), "rdtype": first["rdtype"], "search": first["search"],
-                    "via": first["flavour"], "out": out, "res": res}
+                    "via": first["flavour"], "out": out, "res": res, "qnames": [_cp(c["qname"]) for c in calls]}
+    taps.fail_first = None
     return row
 
 
@@ -214,6 +221,14 @@ def run(ctx: Ctx) -> int:
                     accept[rid] = (recs, acc)
                     ctx.distinct((tuple(codes), d is None))
                 ctx.count(4 + (2 if k % 3 == 0 else 0))
+                if k % 7 == 5:
+                    # the resolver reports NXDOMAIN / no answer for the locator name: the lookup fails; it does not go on to ask
+                    # for some other name (a DC of another domain would be the result)
+                    fk = ("nxdomain", "noanswer")[(k // 7) % 2]
+                    rid = f"{k}f"
+                    rows.append(replay_one(taps, loop, dnsmod, rid, recs, dom if (k // 14) % 2 == 0 else None, fail=fk))
+                    accept[rid] = (recs, acc)
+                    ctx.count(2)
         finally:
             loop.close()
 
@@ -323,7 +338,7 @@ def selftest(ctx: Ctx) -> int:
         return {"prio": p, "weight": w, "port": port, "target": _cp(tg)}
 
     def fl(q: str, search: str, res: dict, via: str) -> dict:
-        return {"n": 1, "qname": _cp(q), "rdtype": "SRV", "search": search, "via": via, "out": "record", "res": res}
+        return {"n": 1, "qname": _cp(q), "rdtype": "SRV", "search": search, "via": via, "out": "record", "res": res, "qnames": [_cp(q)]}
 
     good, corrupted = [], []
     answers = [rec(1, 2, 389, "dc1.d.test."), rec(0, 1, 3270, "dc2.d.test."), rec(0, 2, 389, "dc3.d.test"), rec(0, 2, 3272, "dc4.d.test.")]
@@ -331,11 +346,11 @@ def selftest(ctx: Ctx) -> int:
     best2 = rec(0, 2, 3272, "dc4.d.test")
     for i, (dom, q) in enumerate((("", "_ldap._tcp.dc._msdcs"), ("domain.test", "_ldap._tcp.dc._msdcs.domain.test"))):
         for j, b in enumerate((best, best2)):
-            g = {"id": f"g{i}{j}", "domain": _cp(dom), "answers": answers, "s": fl(q, "true", b, "sync"), "a": fl(q, "true", b, "async")}
+            g = {"id": f"g{i}{j}", "domain": _cp(dom), "answers": answers, "fail": "none", "s": fl(q, "true", b, "sync"), "a": fl(q, "true", b, "async")}
             good.append(g)
 
             def mut(name: str, **ch: t.Any) -> None:
-                row = {"id": f"{name}{i}{j}", "domain": g["domain"], "answers": answers, "s": dict(g["s"]), "a": dict(g["a"])}
+                row = {"id": f"{name}{i}{j}", "domain": g["domain"], "answers": answers, "fail": "none", "s": dict(g["s"]), "a": dict(g["a"])}
                 for k, v in ch.items():
                     side, field = k.split("_", 1)
                     row[side][field] = v
